@@ -16,6 +16,7 @@ GeoOk(e) == LET N == e.n IN
    /\ Len(e.out) = N
    /\ (N >= 2 => e.out[1] = e.first /\ e.out[N] = e.last)
    /\ \A i \in 1..(N-1) : e.out[i][1] <= e.out[i+1][1]                   \* test paths run eastwards
+   /\ e.online = 1                                                       \* every point on a segment of the line (in lon/lat)
 \* ToInterval with d a hair (1e-10 relative) above (side = 1) or below (side = -1) total / parts:
 \* floor(total / d) + 1 points, i.e. parts points above and parts + 1 below, starting at the first vertex
 ICountOk(e) == /\ e.n = (IF e.side = 1 THEN e.parts ELSE e.parts + 1)
